@@ -132,6 +132,49 @@ FineForms == SelectSeq(Forms, FineForm)
 AllMultiples(models, den) == \A j \in DOMAIN models : \A k \in DOMAIN models[j] : \A i \in 1..3 : models[j][k][i] % den = 0
 Dom_Form(f, models, den) == IntForm(f) => AllMultiples(models, den)
 
+(* The SELECTION of the fitted atoms ("all atom masks") is a set of positions; it reaches
+   superimpose() as a NumPy index along the atom axis, in different forms:
+     bool    boolean ndarray (the documented form)      blist   Python list of bools
+     idx64 idx32   integer index array (np.where(mask)[0], the anchor indices the outlier /
+                   homolog variants report), ascending     idxrev  the same, descending (a view)
+     ilist   Python list of ints
+   Every one of them denotes the same set of (fixed, mobile) atom pairs - sums over the pairs do
+   not depend on their order - so MaskSet, and every expected value, is independent of the form.
+   Dom_MaskForm: positions distinct and in range (they are built from a set), selection not empty;
+   "none" exactly when no selection is given. *)
+MaskForms == <<"bool", "idx64", "blist", "idx32", "idxrev", "ilist">>
+IndexForm(kf) == kf \in {"idx64", "idx32", "idxrev", "ilist"}
+Dom_MaskForm(kf, mask, n) ==
+  IF mask = <<>> THEN kf = "none"
+  ELSE kf \in {MaskForms[i] : i \in DOMAIN MaskForms} /\ Len(mask[1]) = n /\ \E k \in 1..n : mask[1][k]
+
+(* dtype of the ROTATION array of a hand-built AffineTransformation: a lattice rotation is an
+   integer matrix and is representable in every numeric dtype, independently of the translations
+   (which may be half ticks and then need a floating dtype). *)
+RForms == <<"i64", "f32", "i32", "f64">>
+IntMatrix(R) == \A i \in 1..3 : \A j \in 1..3 : R[i][j] \in Int
+
+(* ------------------------------------------------------------------ large structures *)
+(* "All point sets with n >= 1 atoms": also thousands of atoms (sizes across the block / counter
+   boundaries of an implementation: 4095 / 4096 / 4097, 8191 / 8193, 10^4).  A large structure is
+   given RUN-LENGTH encoded: a sequence of blocks, block b = a small lattice set (scaled, placed
+   at an offset) whose atoms are repeated cyclically until the block has counts[b] atoms.  The
+   mobile structure is  g (F + d_b) + t : a rigid image in which whole blocks are displaced by
+   d_b ("domain motion"; all d_b = 0: an exact rigid copy).
+   WITNESS: the placement "rotate by g^-1, centroids aligned" (a proper rotation).  It leaves the
+   deviation g^-1(...) = d_b - mean(d) on every atom of block b, so with m_b = counts[b], n = Sum m_b
+       n^2 * msd  =  n * Sum m_b |d_b|^2  -  | Sum m_b d_b |^2          (exact integers)
+   - a function of the multiplicities only: repeating a small set k-fold (all counts * k) leaves
+   the bound unchanged (scaling lemma, claim), and on instances small enough to be expanded it IS
+   the lattice deviation ScaledDev of the expanded sets (claim).  No rigid placement found by
+   superimpose() may be worse than this witness. *)
+BigWitness(counts, ds) ==
+  LET n == SumSeq(counts)
+      q == SumSeq([b \in DOMAIN counts |-> counts[b] * Norm2(ds[b])])
+      s == VSum([b \in DOMAIN counts |-> VScale(counts[b], ds[b])])
+  IN <<n * q - Norm2(s), n * n>>
+BlockCycle(P, scale, off) == [k \in DOMAIN P |-> VAdd(off, VScale(scale, P[k]))]
+
 (* numerators over den: the real transformation has centre c/den and target t/den (the
    rotation is not scaled); den * as_matrix() = [[den R, R c + t], [0, den]] and
    den * apply(x) = R (den x + c) + t *)
